@@ -24,7 +24,7 @@ ALIAS_NP = {"asarray", "asanyarray", "ravel", "reshape", "squeeze", "transpose",
 ALIAS_METHODS = {"reshape", "ravel", "squeeze", "transpose", "view", "swapaxes"}
 FRESH_METHODS = {"copy", "astype", "flatten", "tolist", "sum", "mean", "max", "min", "dot", "conj", "round", "clip", "cumsum", "nonzero", "argsort", "argmax", "argmin", "any", "all", "std", "var", "prod", "item", "get", "keys", "values", "items"}
 INPLACE_METHODS = {"sort", "fill", "resize", "put", "itemset", "setflags", "append", "extend", "insert", "remove", "pop", "clear", "update", "reverse", "partition", "setdefault", "byteswap"}
-MUTABLE_DEFAULT_CALLS = True
+INPLACE_NP = {"fill_diagonal", "put", "place", "putmask", "copyto", "put_along_axis", "add.at", "at"}
 
 
 class Site:
@@ -44,6 +44,7 @@ class Effects:
         self.funcs = [f for f in p.all_functions()]
         self.mut: Dict[str, Dict[tuple, Site]] = {f.key: {} for f in self.funcs}
         self.direct: Dict[str, Dict[tuple, Site]] = {f.key: {} for f in self.funcs}
+        self.direct_all: Dict[str, List[Tuple[tuple, Site]]] = {f.key: [] for f in self.funcs}
         self.ret: Dict[str, Set[tuple]] = {f.key: set() for f in self.funcs}
         self.fields: Dict[str, Dict[str, Set[tuple]]] = {}
         self.cached_names: Set[str] = set()
@@ -62,11 +63,12 @@ class Effects:
             changed = False
             self.unresolved = self.calls_seen = 0
             for f in self.funcs:
-                m, d, r, fl = self._analyse(f)
+                m, d, r, fl, da = self._analyse(f)
                 k = f.key
                 if set(m) != set(self.mut[k]) or r != self.ret[k] or (fl is not None and fl != self.fields.get(k)):
                     changed = True
                 self.mut[k], self.direct[k], self.ret[k] = m, d, r
+                self.direct_all[k] = da
                 if fl is not None:
                     self.fields[k] = fl
             self.rounds = it + 1
@@ -89,7 +91,7 @@ class Effects:
     def _analyse(self, f: FuncInfo):
         A = _FuncAnalysis(self, f)
         A.run()
-        return A.mut, A.direct, A.ret, (A.fields if f.name == "__init__" and f.cls is not None else None)
+        return A.mut, A.direct, A.ret, (A.fields if f.name == "__init__" and f.cls is not None else None), A.direct_all
 
 
 class _FuncAnalysis:
@@ -100,6 +102,8 @@ class _FuncAnalysis:
         self.env: Dict[str, Set[tuple]] = {}
         self.mut: Dict[tuple, Site] = {}
         self.direct: Dict[tuple, Site] = {}
+        self.direct_all: List[Tuple[tuple, Site]] = []
+        self._seen_sites: Set[Tuple[tuple, int]] = set()
         self.ret: Set[tuple] = set()
         self.fields: Dict[str, Set[tuple]] = {}
         self.self_name = f.params[0] if (f.cls is not None and not f.is_staticmethod and not f.is_classmethod and f.params) else None
@@ -304,6 +308,9 @@ class _FuncAnalysis:
                 self.mut[t] = Site(self.f, node, how, via)
             if direct and t not in self.direct:
                 self.direct[t] = Site(self.f, node, how, via)
+            if direct and (t, id(node)) not in self._seen_sites:
+                self._seen_sites.add((t, id(node)))
+                self.direct_all.append((t, Site(self.f, node, how, via)))
 
     def run(self):
         self.block(self.f.node.body)
@@ -457,6 +464,8 @@ class _FuncAnalysis:
                 self.write(self.own(k.value), c, "ufunc out=")
             if k.arg in ("overwrite_a", "overwrite_b") and isinstance(k.value, ast.Constant) and k.value.value is True and c.args:
                 self.write(self.own(c.args[0]), c, "overwrite_a=True")
+        if isinstance(fn, ast.Attribute) and isinstance(fn.value, ast.Name) and fn.value.id in ("np", "numpy") and fn.value.id not in self.env and name in INPLACE_NP and c.args:
+            self.write(self.own(c.args[0]), c, f"np.{name} (in-place numpy function)")
         tg = self.p.resolve_call(c, self.f)
         if not tg:
             if isinstance(fn, ast.Attribute) and name in INPLACE_METHODS:
